@@ -136,3 +136,25 @@ Theorem C03_client_established_only_with_an_authenticated_server : forall wire s
     uc_local (snd (fst cr)) = n /\ uc_sid (snd (fst cr)) = sc_sid sc.
 Proof. exact client_established_only_with_an_authenticated_server. Qed.
 Print Assumptions C03_client_established_only_with_an_authenticated_server.
+
+(* ... and the other way round: in a joint run (the client's writes are the server's script) every Authenticate call
+   that is handed credentials is about the client's configured identity, with the scheme and the secret that the
+   client's configured authenticator returned - for arbitrary configurations and callbacks at both ends. *)
+Theorem C03_server_authenticates_what_the_client_presented : forall wire snode sc o cc cins,
+  consistent wire snode sc o cc cins ->
+  forall pre f sch c enc post,
+  rr_trace (server_on sc o cins) = pre ++ AuthCall f sch (Some c) enc :: post ->
+  f = cc_identity cc /\ exists opts rt, cc_auth cc opts rt = (sch, c).
+Proof. exact server_authenticates_what_the_client_presented. Qed.
+Print Assumptions C03_server_authenticates_what_the_client_presented.
+
+(* non-vacuity: a joint run with such a call *)
+Example C03_joint_run_example :
+  let sc := {| sc_comp := ["none"]; sc_enc := ["none"; "tls"]; sc_schemes := ["plain"; "guest"]; sc_kind := TTcp true;
+               sc_tls_ok := true; sc_sid := "SID" |} in
+  let o := {| o_auth := fun _ s c _ => if String.eqb s "plain" then ARole else AUnknown; o_reg := fun _ => RNode 5 |} in
+  let cc := {| cc_comp_sel := fun _ => "none"; cc_enc_sel := fun l => if mem "tls" l then "tls" else "none";
+               cc_auth := fun _ _ => ("plain", 7); cc_identity := 3; cc_kind := TTcp true; cc_tls_ok := true |} in
+  let cins := play true 9 sc o cc 6 [] in
+  consistent true 9 sc o cc cins /\ In (AuthCall 3 "plain" (Some 7) "tls") (rr_trace (server_on sc o cins)).
+Proof. vm_compute. split; [reflexivity|tauto]. Qed.
